@@ -594,11 +594,13 @@ def cancelLiquidityStake (id : Hash) : Method Liquidity := fun s c =>
 /-- UnlockLiquidityStakeEntries.ReceiveBlock — the ONE legitimate early release: the administrator (`isAdmin` = the
     sender is LiquidityInfo.Administrator, an input) ends the lock of every still-locked entry of the token the call
     carries; the entries stay, their owners cancel them as matured ones. -/
+def unlockEntry (c : Ctx) (e : LStakeE) : LStakeE :=
+  if e.tok = c.token ∧ e.expiration > c.now then { e with expiration := c.now } else e
+
 def unlockLiquidityStakeEntries (isAdmin : Bool) : Method Liquidity := fun s c =>
   if c.amount ≠ 0 then none
   else if !isAdmin then none
-  else some ({ s with entries := s.entries.map fun ke =>
-                if ke.2.tok = c.token ∧ ke.2.expiration > c.now then (ke.1, { ke.2 with expiration := c.now }) else ke }, [])
+  else some ({ s with entries := s.entries.map fun ke => (ke.1, unlockEntry c ke.2) }, [])
 
 /-- SetTokenTupleMethod.ReceiveBlock once its time challenge is over: the administrator replaces the token tuples -/
 def setLiquidityTuples (isAdmin : Bool) (ts : List (Tok × Nat)) : Method Liquidity := fun s c =>
